@@ -22,6 +22,7 @@ def main():
     confirm = True
     base = '/tmp/wt'
     save_as = None
+    copy = None
     args = sys.argv[3:]
     while args:
         a = args.pop(0)
@@ -29,12 +30,15 @@ def main():
         elif a == '--no-confirm': confirm = False
         elif a == '--base': base = args.pop(0)          # directory holding <ID>/ and <ID>-out/
         elif a == '--as': save_as = args.pop(0)         # index under which it is kept in /verif/seeded
+        elif a == '--copy': copy = args.pop(0)          # evaluate in /tmp/eval<K> (tools/eval_copy.sh) instead of /repo + /verif
     out = f'{base}/{pid}-out'
     wt = f'{base}/{pid}'
     patch = f'{out}/patch{i}.diff'
     demo = next((f'{out}/demo{i}.{e}' for e in ('rs', 'sh') if os.path.exists(f'{out}/demo{i}.{e}')), None)
     meta_in = json.load(open(f'{out}/meta{i}.json'))
     res = {'property': pid, 'summary': meta_in.get('summary'), 'needs': meta_in.get('needs'), 'files': meta_in.get('files'), 'author_ran': meta_in.get('ran')}
+    REPO = f'/tmp/eval{copy}/repo' if copy else '/repo'
+    VERIF = f'/tmp/eval{copy}/verif' if copy else '/verif'
     head = sh('git -C /repo rev-parse HEAD')[1].strip()
     if confirm:
         sh(f'git checkout -q -- . && git clean -fdq -e target && git checkout -q --detach {head}', cwd=wt)
@@ -78,22 +82,23 @@ def main():
         res['confirmed'] = bool(res.get('patch_applies') and res['suite_with_change']['failed'] == 0 and res['suite_with_change']['passed'] >= 33 and (not ok_with) and ok_without)
     # detection
     checks = checks or [pid]
-    rc, o = sh(f'git -C /repo status --short')
-    assert o.strip() == '', '/repo is not clean: ' + o
-    rc, o = sh(f'git -C /repo apply {patch}')
+    rc, o = sh(f'git -C {REPO} status --short')
+    assert o.strip() == '', REPO + ' is not clean: ' + o
+    rc, o = sh(f'git -C {REPO} apply {patch}')
     det = {}
     try:
         if rc != 0:
             res['apply_to_repo_failed'] = o[-300:]
         else:
             for c in checks:
-                rc, o = sh(f'./check {c} quick', cwd='/verif')
+                rc, o = sh(f'./check {c} quick', cwd=VERIF)
                 viols = [l for l in o.splitlines() if l.startswith('VIOLATION') or l.strip().startswith('oracle=')]
                 det[c] = {'exit': rc, 'violation_lines': viols[:6], 'tail': o.splitlines()[-1][:200] if o else ''}
     finally:
-        sh('git -C /repo checkout -- .')
+        sh(f'git -C {REPO} checkout -- .')
         # evidence files were rewritten by runs on a modified tree: restore the committed ones
-        sh('git -C /verif checkout -- evidence')
+        if not copy:
+            sh('git -C /verif checkout -- evidence')
     res['detection'] = det
     res['detected_by'] = [c for c, d in det.items() if d['exit'] == 1]
     d = f'/verif/seeded/{pid}-{save_as or i}'
